@@ -92,9 +92,34 @@ def main():
         elif unfair > 0.03:
             ck.note(f"selection law differs from the declared fractions and predicted shares {share} differ from {declared} (sampled means): {text[:100]}")
             ck.fail("mass-share-differs", inp, f"selection probabilities {p}, mean molecule masses {mbar} (sampled): mass shares {share} instead of {declared}")
-    if not quick:
-        # backstop: realised shares of whole ensembles (reported with their deviation, decide nothing)
-        pass
+    # ---- one LARGE ensemble (more than a thousand members) through System.generator: every member's component is picked under the declared
+    # law, the first as well as the 1500th (decided at the rng.choice interface, call by call)
+    for text, M in [("CCF.|15.0%|CCCl.|25.0%|CCBr.|60.0%|", 130000.0)] + ([] if quick else [("COC.|70.0%|CCO.|30.0%|", 70000.0)]):
+        system = sysrun.parse_system(text, M)
+        if system is None or not system.generable:
+            ck.note(f"large-ensemble system not generable: {text}")
+            continue
+        rng = Recorder(ck.seed * 23 + 5)
+        members, error, log = sysrun.run_system(system, rng, max_members=5000)
+        inp = {"text": text, "system_mass": M, "members": len(members)}
+        ck.evaluations += 1
+        ck.count("large-ensemble-members", len(members))
+        if error is not None:
+            ck.fail("large-ensemble-raises", inp, f"{type(error).__name__}: {error}")
+            continue
+        declared = [float(m.mixture.absolute_mass) / float(system.system_mass) for m in system._molecules]
+        n = len(declared)
+        picks = [x for x in log if x[0] == "choice" and x[1] == list(range(n))]
+        covered = 0
+        for k, (_, a, p, r) in enumerate(picks):
+            cnt = len(r) if isinstance(r, list) else 1
+            if p is None or len(p) != n or not all(close(x, y, 1e-9) for x, y in zip(p, declared)):
+                ck.fail("component-pick-not-under-the-declared-law", inp, f"pick call #{k} (covering members {covered}..{covered + cnt - 1}) was made with p = {p}; declared fractions {declared}")
+                break
+            covered += cnt
+        else:
+            if covered < len(members):
+                ck.fail("component-pick-not-under-the-declared-law", inp, f"{len(members)} members but only {covered} component picks under the declared law were observed")
     ck.rule = ("one case = one two- to four-component system (components differ in molecule mass by factors 1-100); the selection probabilities are read off "
                "the rng.choice call of the component pick, mean molecule masses are exact (plain molecules) or sampled; share formula from C14_share")
     ck.extra["assumptions"] = ["renewal-reward theorem (expected mass per pick -> almost sure long-run share) is cited, not formalised (C14_partial)"]
